@@ -3,7 +3,7 @@
 //! case (see coq/Wallet/Batch.v run_C21):
 //!   mode n postage etching premine nP (value offset)*nP nS value*nS
 //!     mode 0 same-sat, 1 satpoints, 2 separate-outputs, 3 shared-output
-//! obs  nOut values.. nPtr pointers.. (vout offset)*n  rune(0 | 1 vout)
+//! obs  nOut values.. nPtr pointers.. (vout offset)*n  rune(0 | 1 vout)  nInputs commitInputIndex
 //!
 //! Per case a regtest mock node is prepared with one transaction whose outputs are the wallet's
 //! outputs (parents' outputs with the parent inscriptions at the given offsets, satpoint outputs,
@@ -190,8 +190,11 @@ fn run_case(case: &Case) -> Result<(Line, Result<(), String>), String> {
   for i in 0..case.n {
     let path = dir.path().join(format!("inscription{i}.txt"));
     std::fs::write(&path, format!("child {i}")).map_err(|e| e.to_string())?;
+    let delegating = case.postage % 2 == 0 && i % 2 == 1 && !parent_ids.is_empty();
     entries.push(batch::Entry {
-      file: Some(path),
+      file: if delegating { None } else { Some(path) },
+      delegate: if delegating { Some(parent_ids[0]) } else { None },
+      metaprotocol: if i % 3 == 2 { Some("hx".into()) } else { None },
       satpoint: if case.mode == 1 {
         Some(SatPoint { outpoint: OutPoint { txid: setup_txid, vout: (first_sat_output + i) as u32 }, offset: 0 })
       } else {
@@ -270,6 +273,9 @@ fn run_case(case: &Case) -> Result<(Line, Result<(), String>), String> {
     }
     None => l.push(0u8),
   }
+  let commit_txid_obs = res.commit_tx.compute_txid();
+  l.push(res.reveal_tx.input.len());
+  l.push(res.reveal_tx.input.iter().position(|i| i.previous_output.txid == commit_txid_obs).unwrap_or(usize::MAX >> 8));
 
   // ---- S: mine both transactions and read everything back from a real index
   let oracle = (|| -> Result<(), String> {
@@ -282,6 +288,11 @@ fn run_case(case: &Case) -> Result<(Line, Result<(), String>), String> {
     for i in &res.commit_tx.input {
       if !cardinals.contains(&i.previous_output) {
         return Err(format!("commit transaction spends {} which is not a cardinal output", i.previous_output));
+      }
+    }
+    for (j, _) in case.parents.iter().enumerate() {
+      if res.reveal_tx.input[j].previous_output != (OutPoint { txid: setup_txid, vout: j as u32 }) {
+        return Err(format!("reveal input {j} is not parent {j}'s output"));
       }
     }
     if res.reveal_tx.input.iter().filter(|i| i.previous_output.txid == commit_txid).count() != 1 {
@@ -352,7 +363,7 @@ fn run_case(case: &Case) -> Result<(Line, Result<(), String>), String> {
 }
 
 pub fn gen(rng: &mut Rng, tier: &str) -> Vec<Line> {
-  let n_cases = if tier == "thorough" { 300 } else { 40 };
+  let n_cases = if tier == "thorough" { 300 } else { 28 };
   let mut v = Vec::new();
   for k in 0..n_cases {
     let mode = (k % 4) as u64;
